@@ -92,6 +92,10 @@ def learn (c : CookieSt) (rq r : Bytes) : CookieSt :=
   let c' := { c with state := .supported, unsupportedTs := .zero }
   if c'.client == rq.take COOKIE_CLIENT_LEN then { c' with server := r.drop 8 } else c'
 
+/-- … but only while a client cookie is in use (or always, on a tree that still learns in a cleared state) -/
+def learnG (c : CookieSt) (rq r : Bytes) : CookieSt :=
+  if learnsWhenCleared || c.state = .generated || c.state = .supported then learn c rq r else c
+
 def bump (q : QState) : QState :=
   { cookieTry := q.cookieTry + 1, usingTcp := q.usingTcp || decide (q.cookieTry + 1 ≥ COOKIE_RESEND_MAX) }
 
@@ -127,20 +131,24 @@ theorem validate_badclient (isSet c q) (rq r : Bytes) (rcode now) (h1 : 8 ≤ r.
 theorem validate_server_badcookie (isSet c q) (rq r : Bytes) (now) (h1 : 8 < r.length) (h2 : r.length ≤ 40)
     (hp : rq.take 8 = r.take 8) :
     validateWith isSet c q (some rq) (some r) RCODE_BADCOOKIE now =
-      ⟨learn c rq r, bump q, .drop, true, oobOf rq (some r)⟩ := by
+      ⟨learnG c rq r, bump q, .drop, true, oobOf rq (some r)⟩ := by
   unfold validateWith
   have h1' : ¬ r.length < 8 := by omega
   have h2' : ¬ r.length > 40 := by omega
-  simp [h1', h2', hp, oobOf, h1, learn, bump]
+  by_cases hg : (learnsWhenCleared || decide (c.state = .generated) || decide (c.state = .supported)) = true
+  · simp [h1', h2', hp, oobOf, h1, learn, learnG, bump, hg]
+  · simp [h1', h2', hp, oobOf, h1, learnG, bump, hg]
 
 theorem validate_server_ok (isSet c q) (rq r : Bytes) (rcode now) (h1 : 8 < r.length) (h2 : r.length ≤ 40)
     (hp : rq.take 8 = r.take 8) (hr : rcode ≠ RCODE_BADCOOKIE) :
     validateWith isSet c q (some rq) (some r) rcode now =
-      ⟨learn c rq r, q, .accept, false, oobOf rq (some r)⟩ := by
+      ⟨learnG c rq r, q, .accept, false, oobOf rq (some r)⟩ := by
   unfold validateWith
   have h1' : ¬ r.length < 8 := by omega
   have h2' : ¬ r.length > 40 := by omega
-  simp [h1', h2', hp, oobOf, h1, learn, hr]
+  by_cases hg : (learnsWhenCleared || decide (c.state = .generated) || decide (c.state = .supported)) = true
+  · simp [h1', h2', hp, oobOf, h1, learn, learnG, hr, hg]
+  · simp [h1', h2', hp, oobOf, h1, learnG, hr, hg]
 
 end Cares.Proto.Cookie
 namespace Cares.Proto.Cookie
@@ -269,5 +277,103 @@ theorem learn_state (c : CookieSt) (rq r : Bytes) : (learn c rq r).state = .supp
 
 theorem learn_uts (c : CookieSt) (rq r : Bytes) : (learn c rq r).unsupportedTs = .zero := by
   unfold learn; simp only []; split <;> rfl
+
+theorem learn_client (c : CookieSt) (rq r : Bytes) : (learn c rq r).client = c.client := by
+  unfold learn; simp only []; split <;> rfl
+
+theorem learnG_cases (c : CookieSt) (rq r : Bytes) :
+    learnG c rq r = learn c rq r ∨ (learnG c rq r = c ∧ c.state ≠ .generated ∧ c.state ≠ .supported) := by
+  unfold learnG
+  split
+  · left; rfl
+  · rename_i h
+    right
+    simp only [Bool.or_eq_true, decide_eq_true_eq, not_or] at h
+    exact ⟨rfl, h.1.2, h.2⟩
+
+theorem learnG_inUse (c : CookieSt) (rq r : Bytes) (h : c.state = .generated ∨ c.state = .supported) :
+    learnG c rq r = learn c rq r := by
+  unfold learnG
+  rcases h with h | h <;> simp [h]
+
+theorem wf_learnG (c : CookieSt) (rq r : Bytes) (h : c.Wf) (hr : r.length ≤ 40) : (learnG c rq r).Wf := by
+  rcases learnG_cases c rq r with h1 | ⟨h1, _⟩
+  · rw [h1]; exact wf_learn c rq r h hr
+  · rw [h1]; exact h
+
+end Cares.Proto.Cookie
+
+namespace Cares.Proto.Cookie
+open Cares.Generated.Proto
+
+theorem genIp_client (c : CookieSt) (conn now) (fresh : Bytes) :
+    (genIp c conn now fresh).client = fresh ∨ genIp c conn now fresh = c := by
+  unfold genIp; split
+  · left; rfl
+  · right; rfl
+
+theorem genRotate_client (c : CookieSt) (conn now) (fresh : Bytes) :
+    (genRotate c conn now fresh).client = fresh ∨ genRotate c conn now fresh = c := by
+  unfold genRotate; split
+  · left; rfl
+  · right; rfl
+
+/-- after `ares_cookie_apply` attached a cookie, the client cookie is either the freshly drawn one or the one that was
+    already in use -/
+theorem applyCore_client (isSet) (c : CookieSt) (conn now) (fresh : Bytes) :
+    (applyCore isSet c conn now fresh).client = fresh ∨
+    ((c.state = .generated ∨ c.state = .supported) ∧ (applyCore isSet c conn now fresh).client = c.client) := by
+  unfold applyCore
+  generalize hc2 : relearn (regress isSet c now) = c2
+  have h5 := genRotate_client (genIp (genInitial c2 conn now fresh) conn now fresh) conn now fresh
+  have h4 := genIp_client (genInitial c2 conn now fresh) conn now fresh
+  rcases h5 with h5 | h5
+  · left; exact h5
+  · rw [h5]
+    rcases h4 with h4 | h4
+    · left; exact h4
+    · rw [h4]
+      by_cases hi : c2.state = .initial
+      · left; simp [genInitial, hi, generate]
+      · right
+        have h3 : genInitial c2 conn now fresh = c2 := by simp [genInitial, hi]
+        rw [h3]
+        -- no reset happened
+        have h1 : regress isSet c now = c := by
+          rcases regress_eq_or isSet c now with h | ⟨h, _⟩
+          · exact h
+          · exfalso; apply hi; rw [← hc2, h]; simp [relearn, CookieSt.cleared]
+        rw [h1] at hc2
+        have hu : c.state ≠ .unsupported := by
+          intro hu; apply hi; rw [← hc2]; simp [relearn, hu, CookieSt.cleared]
+        have h2 : c2 = c := by rw [← hc2]; simp [relearn, hu]
+        rw [h2] at hi ⊢
+        refine ⟨?_, rfl⟩
+        cases hs : c.state with
+        | initial => exact absurd hs hi
+        | generated => exact Or.inl rfl
+        | supported => exact Or.inr rfl
+        | unsupported => exact absurd hs hu
+
+theorem relearn_not_unsupported (c : CookieSt) : (relearn c).state ≠ .unsupported := by
+  unfold relearn; split
+  · simp [CookieSt.cleared]
+  · assumption
+
+theorem applyCore_inUse (isSet) (c : CookieSt) (conn now) (fresh : Bytes) :
+    (applyCore isSet c conn now fresh).state = .generated ∨ (applyCore isSet c conn now fresh).state = .supported := by
+  unfold applyCore
+  rw [genRotate_state, genIp_state]
+  have hnu := relearn_not_unsupported (regress isSet c now)
+  generalize relearn (regress isSet c now) = c2 at hnu
+  unfold genInitial
+  split
+  · left; rfl
+  · rename_i hi
+    cases hs : c2.state with
+    | initial => exact absurd hs hi
+    | generated => exact Or.inl rfl
+    | supported => exact Or.inr rfl
+    | unsupported => exact absurd hs hnu
 
 end Cares.Proto.Cookie
